@@ -108,7 +108,7 @@ def _run(prog):
             elif k == "attach_class":
                 _, c, T, s = op
                 ev.update(cls=c, T=T, s=s)
-                comp = TYPES[T](None, model)
+                comp = TYPES[T](None, model if s % 2 else Model())       # components built for different models
                 keep.append(comp)
                 serial[id(comp)] = s
                 cls[c].add_class_component(comp)
